@@ -20,7 +20,10 @@ Variable Post : res -> St -> Prop.
 
 Definition nonfatal (r : res) : Prop := match r with Fatal _ => False | _ => True end.
 
-Hypothesis pre_post : forall r st, Pre st -> Post r st.
+(* [B]: the results a construct may produce by itself (everything but a foreign exception other than the unmodelled-leaf
+   marker); fatal results of sub-evaluations are handed on as they are *)
+Definition builtin (r : res) : Prop := match r with Fatal (Foreign x) => x = 0 | _ => True end.
+Hypothesis pre_post : forall r st, Pre st -> builtin r -> Post r st.
 Hypothesis post_pre : forall r st, Post r st -> nonfatal r -> Pre st.
 Hypothesis cut_pre : forall f st, Pre st -> Pre (on_cut f st).
 
@@ -40,10 +43,10 @@ Lemma seq_go_tr ev : Tr ev -> forall es out f st r st', Pre st ->
   seq_go ev es out f st = (r, st') -> Post r st'.
 Proof.
   intros T es. induction es as [|e es IH]; intros out f st r st' P E; cbn [seq_go] in E.
-  - inversion E; subst. apply pre_post. exact P.
+  - inversion E; subst. (apply pre_post; [|exact I || reflexivity]). exact P.
   - destruct (ev e f st) as [[v f1|c|x] st1] eqn:E1.
     + eapply IH; [eapply (tr_ok ev T); eassumption|exact E].
-    + inversion E; subst. apply pre_post. eapply (tr_fail ev T); eassumption.
+    + inversion E; subst. (apply pre_post; [|exact I || reflexivity]). eapply (tr_fail ev T); eassumption.
     + inversion E; subst. eapply (tr_fatal ev T); eassumption.
 Qed.
 
@@ -51,10 +54,10 @@ Lemma choice_go_tr ev : Tr ev -> forall es f st r st', Pre st ->
   choice_go unsafe ev es f st = (r, st') -> Post r st'.
 Proof.
   intros T es. induction es as [|e es IH]; intros f st r st' P E; cbn [choice_go] in E.
-  - inversion E; subst. apply pre_post. exact P.
+  - inversion E; subst. (apply pre_post; [|exact I || reflexivity]). exact P.
   - destruct (ev e (add_defined unsafe e (push f)) st) as [[v f1|[|]|x] st1] eqn:E1.
-    + inversion E; subst. apply pre_post. eapply (tr_ok ev T); eassumption.
-    + inversion E; subst. apply pre_post. eapply (tr_fail ev T); eassumption.
+    + inversion E; subst. (apply pre_post; [|exact I || reflexivity]). eapply (tr_ok ev T); eassumption.
+    + inversion E; subst. (apply pre_post; [|exact I || reflexivity]). eapply (tr_fail ev T); eassumption.
     + eapply IH; [eapply (tr_fail ev T); eassumption|exact E].
     + inversion E; subst. eapply (tr_fatal ev T); eassumption.
 Qed.
@@ -90,12 +93,12 @@ Lemma repeat_go_tr ev : Tr ev -> forall k e sep omitsep f st r st', Pre st ->
   repeat_go on_cut k ev e sep omitsep f st = (r, st') -> Post r st'.
 Proof.
   intros T k. induction k as [|k IH]; intros e sep omitsep f st r st' P E; cbn [repeat_go] in E.
-  - inversion E; subst. apply pre_post; exact P.
+  - inversion E; subst. (apply pre_post; [|exact I || reflexivity]); exact P.
   - destruct (repeat_iter on_cut ev e sep omitsep f st) as [[f1| | |x] st1] eqn:Ei;
       pose proof (repeat_iter_tr ev T _ _ _ _ _ _ _ P Ei) as Pi; cbn [PostI] in Pi.
     + eapply IH; [exact Pi|exact E].
-    + inversion E; subst. apply pre_post; exact Pi.
-    + inversion E; subst. apply pre_post; exact Pi.
+    + inversion E; subst. (apply pre_post; [|exact I || reflexivity]); exact Pi.
+    + inversion E; subst. (apply pre_post; [|exact I || reflexivity]); exact Pi.
     + inversion E; subst. exact Pi.
 Qed.
 
@@ -105,7 +108,7 @@ Proof.
   intros T k e sep omitsep f st r st' P E. unfold rep_body in E.
   destruct (ev e f st) as [[v f1|c|x] st1] eqn:E1.
   - eapply repeat_go_tr; [exact T|eapply (tr_ok ev T); eassumption|exact E].
-  - inversion E; subst. apply pre_post. eapply (tr_fail ev T); eassumption.
+  - inversion E; subst. (apply pre_post; [|exact I || reflexivity]). eapply (tr_fail ev T); eassumption.
   - inversion E; subst. eapply (tr_fatal ev T); eassumption.
 Qed.
 
@@ -115,15 +118,15 @@ Proof.
   intros T k plus e sep omitsep f st r st' P E. unfold rep_eval in E. destruct plus.
   - destruct (rep_body on_cut k ev e sep omitsep (push f) st) as [[v f1|c|x] st1] eqn:Eb;
       pose proof (rep_body_tr ev T _ _ _ _ _ _ _ _ P Eb) as Pb; inversion E; subst.
-    + apply pre_post. eapply post_pre; [exact Pb|exact I].
-    + apply pre_post. eapply post_pre; [exact Pb|exact I].
+    + (apply pre_post; [|exact I || reflexivity]). eapply post_pre; [exact Pb|exact I].
+    + (apply pre_post; [|exact I || reflexivity]). eapply post_pre; [exact Pb|exact I].
     + exact Pb.
   - match type of E with context [rep_body on_cut k ev e sep omitsep ?fr st] =>
       destruct (rep_body on_cut k ev e sep omitsep fr st) as [[v f1|[|]|x] st1] eqn:Eb end;
       pose proof (rep_body_tr ev T _ _ _ _ _ _ _ _ P Eb) as Pb; inversion E; subst.
-    + apply pre_post. eapply post_pre; [exact Pb|exact I].
-    + apply pre_post. eapply post_pre; [exact Pb|exact I].
-    + apply pre_post. eapply post_pre; [exact Pb|exact I].
+    + (apply pre_post; [|exact I || reflexivity]). eapply post_pre; [exact Pb|exact I].
+    + (apply pre_post; [|exact I || reflexivity]). eapply post_pre; [exact Pb|exact I].
+    + (apply pre_post; [|exact I || reflexivity]). eapply post_pre; [exact Pb|exact I].
     + exact Pb.
 Qed.
 
@@ -131,7 +134,7 @@ Lemma skipto_go_tr ev : Tr ev -> forall k e f st r st', Pre st ->
   skipto_go text re_at ic k ev e f st = (r, st') -> Post r st'.
 Proof.
   intros T k. induction k as [|k IH]; intros e f st r st' P E; cbn [skipto_go] in E.
-  - inversion E; subst. apply pre_post; exact P.
+  - inversion E; subst. (apply pre_post; [|exact I || reflexivity]); exact P.
   - destruct (atend text (pos f)).
     + eapply T; eassumption.
     + destruct (ev e (push f) st) as [[v f1|c|x] st1] eqn:E1.
@@ -139,19 +142,19 @@ Proof.
       * assert (P1 : Pre st1) by (eapply (tr_fail ev T); [exact P|exact E1]).
         destruct (next_token text re_at ic (pos f)) as [q|].
         -- eapply IH; [exact P1|exact E].
-        -- inversion E; subst. apply pre_post; exact P1.
+        -- inversion E; subst. (apply pre_post; [|exact I || reflexivity]); exact P1.
       * inversion E; subst. eapply (tr_fatal ev T); eassumption.
 Qed.
 
 Lemma leaf_tr l f st r st' : Pre st ->
   leaf_eval text re_at isalnum isalpha lower ic on_cut l f st = (r, st') -> Post r st'.
 Proof.
-  intros P E. apply pre_post.
+  intros P E.
   destruct l; cbn [leaf_eval] in E; unfold with_next_token in E;
     repeat match type of E with
            | context [match ?x with _ => _ end] => destruct x
            | context [if ?b then _ else _] => destruct b
-           end; inversion E; subst; try exact P; apply cut_pre; exact P.
+           end; inversion E; subst; (apply pre_post; [|exact I || reflexivity]); try exact P; apply cut_pre; exact P.
 Qed.
 
 Variable on_call : nat -> @ev_t St -> nat -> frame -> St -> res * St.
@@ -161,7 +164,7 @@ Notation gev := (geval text re_at isalnum isalpha lower ic unsafe on_cut on_call
 Theorem geval_tr : forall n, Tr (gev n).
 Proof.
   induction n as [|n IH]; intros e f st r st' P E.
-  - rewrite geval_O in E. inversion E; subst. apply pre_post; exact P.
+  - rewrite geval_O in E. inversion E; subst. (apply pre_post; [|exact I || reflexivity]); exact P.
   - rewrite geval_S in E.
     destruct e as [l|es|es|e1|e1|e1|plus sep omitsep e1|neg e1|e1|rr|il nm e1|il e1].
     + eapply leaf_tr; eassumption.
@@ -169,24 +172,24 @@ Proof.
     + eapply choice_go_tr; eassumption.
     + eapply IH; eassumption.
     + destruct (gev n e1 (push f) st) as [[v f1|c|x] st1] eqn:E1; inversion E; subst.
-      * apply pre_post. eapply (tr_ok _ IH); eassumption.
-      * apply pre_post. eapply (tr_fail _ IH); eassumption.
+      * (apply pre_post; [|exact I || reflexivity]). eapply (tr_ok _ IH); eassumption.
+      * (apply pre_post; [|exact I || reflexivity]). eapply (tr_fail _ IH); eassumption.
       * eapply (tr_fatal _ IH); eassumption.
     + match type of E with context [gev n e1 ?fr st] => destruct (gev n e1 fr st) as [[v f1|[|]|x] st1] eqn:E1 end;
         inversion E; subst.
-      * apply pre_post. eapply (tr_ok _ IH); eassumption.
-      * apply pre_post. eapply (tr_fail _ IH); eassumption.
-      * apply pre_post. eapply (tr_fail _ IH); eassumption.
+      * (apply pre_post; [|exact I || reflexivity]). eapply (tr_ok _ IH); eassumption.
+      * (apply pre_post; [|exact I || reflexivity]). eapply (tr_fail _ IH); eassumption.
+      * (apply pre_post; [|exact I || reflexivity]). eapply (tr_fail _ IH); eassumption.
       * eapply (tr_fatal _ IH); eassumption.
     + eapply rep_eval_tr; eassumption.
     + destruct neg; destruct (gev n e1 (push f) st) as [[v f1|c|x] st1] eqn:E1; inversion E; subst;
-        first [eapply (tr_fatal _ IH); eassumption | apply pre_post; first [eapply (tr_ok _ IH); eassumption | eapply (tr_fail _ IH); eassumption]].
+        first [eapply (tr_fatal _ IH); eassumption | (apply pre_post; [|exact I || reflexivity]); first [eapply (tr_ok _ IH); eassumption | eapply (tr_fail _ IH); eassumption]].
     + eapply skipto_go_tr; eassumption.
     + eapply call_tr; [exact IH|exact P|exact E].
     + destruct il; destruct (gev n e1 f st) as [[v f1|c|x] st1] eqn:E1; inversion E; subst;
-        first [eapply (tr_fatal _ IH); eassumption | apply pre_post; first [eapply (tr_ok _ IH); eassumption | eapply (tr_fail _ IH); eassumption]].
+        first [eapply (tr_fatal _ IH); eassumption | (apply pre_post; [|exact I || reflexivity]); first [eapply (tr_ok _ IH); eassumption | eapply (tr_fail _ IH); eassumption]].
     + destruct il; destruct (gev n e1 f st) as [[v f1|c|x] st1] eqn:E1; inversion E; subst;
-        first [eapply (tr_fatal _ IH); eassumption | apply pre_post; first [eapply (tr_ok _ IH); eassumption | eapply (tr_fail _ IH); eassumption]].
+        first [eapply (tr_fatal _ IH); eassumption | (apply pre_post; [|exact I || reflexivity]); first [eapply (tr_ok _ IH); eassumption | eapply (tr_fail _ IH); eassumption]].
 Qed.
 
 End Triple.
